@@ -41,6 +41,7 @@ def neighbour_counts(grid):
 
 class M(Model):
     ENV = "Minesweeper"
+    DETERMINISTIC_CONFIGS = {"r5c3m0"}  # no mines: every key yields the same instance
 
     def __init__(self, b):
         super().__init__(b)
@@ -190,9 +191,17 @@ class M(Model):
             out.append(("step_count differs from the state", f"{int(obs.step_count)} vs {int(s.step_count)}"))
         return out
 
-
-# r5c3m0 has no mines: every key yields the same instance
-M.DETERMINISTIC_CONFIGS = {"r5c3m0"}
+    # ---- constructive moves for the 'solve' plan mode
+    def solve_action(self, s, r=0):
+        """An unexplored safe square (r picks which) - the 'solve' plan mode reaches solved boards with it."""
+        board = np.asarray(s.board)
+        if board.shape != (self.R, self.C):
+            return None
+        safe = np.argwhere((board == -1) & ~mine_grid(s.flat_mine_locations, self.R, self.C))
+        if len(safe) == 0:
+            return None
+        rr, cc = safe[int(r) % len(safe)]
+        return [int(rr), int(cc)]
 
 
 # ------------------------------------------------------------------- synthetic tables (C09)
